@@ -79,8 +79,6 @@ def enum_outcome_pairs(tier):
         yield {"hosts": ["main"], "script": [a], "ops": [["open"], ["adv", 0.2], ["close"], ["adv", 5]]}
         yield {"hosts": ["main"], "script": [a], "ops": [["sub"], ["open"], ["adv", 12], ["drop", "fin"], ["adv", 3], ["shutdown"], ["adv", 70]]}
     pairs = list(itertools.product(outs, repeat=2))
-    if tier == "quick":
-        pairs = [p for i, p in enumerate(pairs) if i % 3 == 0]
     for a, b in pairs:
         yield {"hosts": ["main"], "script": [a, b], "ops": [["open"], ["adv", 12], ["adv", 30], ["dropold", "fin"], ["adv", 1], ["call", "5"], ["adv", 80], ["close"], ["adv", 2]]}
     for a in outs:
@@ -118,12 +116,12 @@ SPEC = Property(
           "auth tag, error TLVs incl. authentication, malformed TLV, stalled verify, controller unknown to the accessory, success, success "
           "then drop, success then FIN/reset during re-subscription) x harness events {caller request with/without timeout or "
           "cancellation, subscribe, advance time, zeroconf update, reconnect_soon, peer FIN/reset of the current and of an older "
-          "connection, close, shutdown}. Exhaustive over every outcome and every pair of consecutive outcomes (every third pair in quick) "
+          "connection, close, shutdown}. Exhaustive over every outcome and every pair of consecutive outcomes "
           "in fixed event frames; generated histories beyond. Non-trivial: a failed setup followed by another attempt, or a close."),
     layers=[
         Layer("outcome-pairs", run_case, enumerate=enum_outcome_pairs, exhaustive=True,
-              space="every outcome x 3 frames, every ordered pair of outcomes x 1 frame (quick: every third pair), every outcome x 2 two-host frames", min_nontrivial=150),
-        Layer("generated", run_case, strategy=histories, n={"quick": 2500, "thorough": 60000}, min_nontrivial=500),
+              space="every outcome x 3 frames, every ordered pair of outcomes x 1 frame, every outcome x 2 two-host frames", min_nontrivial=150),
+        Layer("generated", run_case, strategy=histories, n={"quick": 12000, "thorough": 150000}, min_nontrivial=500),
     ],
     assumptions=["'holds a connection' = the controller has not called close()/abort() on the transport and has not been told it is lost",
                  "observations are taken when the event loop is idle, and at the instant each new connection is opened"],
